@@ -49,6 +49,35 @@ func init() {
 		},
 		Undecided: []string{"bufio.Scanner and io.ReadFull / binary.Read themselves (assumed library contracts)", "that replies and state are a function of the token sequence only follows from the sequential handler semantics; timing is not decided"},
 	}
+	plans["C04"] = &Plan{
+		Items: append([]Item{
+			{Plugin: "sites", Func: "hotline.(*Server).handleNewConnection", Kinds: siteKinds},
+			{Plugin: "gate", Func: "hotline.(*Server).handleNewConnection"},
+			{Plugin: "sites", Func: "hotline.(*ClientConn).Authenticate", Kinds: siteKinds},
+			{Plugin: "sites", Func: "hotline.performHandshake", Kinds: siteKinds},
+		}, fnItems(nil, "hotline.(*handshake).Valid", "hotline.(*handshake).Write")...),
+		Decided: []string{
+			"handleNewConnection: every request dispatch, every outbox send, every registry / statistics effect (also the deferred ones) is reachable only after performHandshake returned nil and Authenticate returned true; the client is registered only after Authenticate; the ban lookup follows the handshake and precedes Authenticate",
+			"the login handed to Authenticate is the decoded login field, with the empty login replaced by guest and nothing else",
+			"Authenticate returns true iff the account manager knows the login and bcrypt accepts the password against that account's stored hash",
+			"handshake.Valid iff the first eight bytes are TRTP HOTL; handshake.Write accepts exactly 12 bytes",
+		},
+		Undecided: []string{"exact bytes of the error reply / ban notice on the failure paths (Transaction.Read not yet under contract)", "bcrypt itself"},
+	}
+	plans["C17"] = &Plan{
+		Items: []Item{
+			{Plugin: "sites", Func: "hotline.(*Server).handleNewConnection", Kinds: siteKinds},
+			{Plugin: "handler-contract", Func: "mobius.HandleDisconnectUser", Kinds: []string{"site"}},
+			{Plugin: "sites", Func: "mobius.(*BanFile).Add", Kinds: []string{"site", "post", "guarded"}},
+			{Func: "mobius.(*BanFile).IsBanned"},
+		},
+		Decided: []string{
+			"handleNewConnection: the ban lookup follows the handshake; Authenticate (and everything after it) is reachable only if the address is not banned, or its temporary ban has an expiry that time.Now() is not before",
+			"HandleDisconnectUser: option 1 bans the target's own address (strings.Split of the target's RemoteAddr) until now + exactly 30 minutes, option 2 without expiry; bans and the delayed Disconnect only for targets without cannot-be-disconnected (C06)",
+			"BanFile.IsBanned answers exactly from the map; BanFile.Add records the entry, leaves every other address unchanged, writes the marshalled list and returns nil only if the write succeeded; the map is only touched under the mutex",
+		},
+		Undecided: []string{"restart = Load of the YAML file (library round trip assumed)", "Disconnect's own effects (registry delete, notify, Close) not yet under contract", "wall-clock behaviour of time.Now"},
+	}
 	plans["C09"] = &Plan{
 		Items: []Item{
 			{Plugin: "sites", Func: "hotline.UploadHandler", Kinds: siteKinds},
